@@ -13,6 +13,7 @@
      sub-read gsub|gpos TYPE xBYTES pos -> (ok SUBTABLE) | err | fuel (reader not modelled)
        SUBTABLE = (gsub11 (gid ...) delta) | (gsub12 COV (gid ...)) | (gsub21 COV ((gid ...) ...))
                 | (gsub31 COV ((gid ...) ...)) | (gpos11 COV VR) | (gpos12 COV (VR ...))
+                | (gsub41 COV (((out in ...) ...) ...)) | (gpos21 ((left right VR VR) ...))
        COV = ((gid idx runlen) ...)
      fl-enc ((xTAG (lookup ...)) ...) -> (ok xBYTES) | panic
      fl-read xBYTES pos           -> (ok ((xTAG (lookup ...)) ...)) | err *)
@@ -111,13 +112,32 @@ let sx_of_cov (l : (n * n) list) : sx = runs_of_pairs (List.map (fun (g, i) -> (
 let ns_of_sx x = List.map sx_n (lst x)
 let sx_of_ns l = L (List.map an l)
 
+let lig_of_sx x = match lst x with o :: ins -> (sx_n o, List.map sx_n ins) | [] -> failwith "bad ligature"
+let sets_of_sx x = List.map (fun s -> List.map lig_of_sx (lst s)) (lst x)
+let sx_of_sets ss = L (List.map (fun s -> L (List.map (fun (o, ins) -> L (an o :: List.map an ins)) s)) ss)
+
 let sx_of_subtable (s : subtable) : sx = match s with
+  | SGsub41 (c, ss) -> L [A "gsub41"; sx_of_cov c; sx_of_sets ss]
   | SGsub11 (gl, d) -> L [A "gsub11"; sx_of_ns gl; an d]
   | SGsub12 (c, su) -> L [A "gsub12"; sx_of_cov c; sx_of_ns su]
   | SGsub21 (c, q) -> L [A "gsub21"; sx_of_cov c; L (List.map sx_of_ns q)]
   | SGsub31 (c, q) -> L [A "gsub31"; sx_of_cov c; L (List.map sx_of_ns q)]
   | SGpos11 (c, v) -> L [A "gpos11"; sx_of_cov c; sx_of_vr v]
   | SGpos12 (c, vs) -> L [A "gpos12"; sx_of_cov c; L (List.map sx_of_vr vs)]
+
+(* (gpos21 ((left right VR VR) ...)), sorted by (left, right): grouped by left *)
+let groups_of_sx (x : sx) =
+  let items = List.map (fun p -> match p with
+    | L [l; r; v1; v2] -> (sx_n l, (sx_n r, (vr_of_sx v1, vr_of_sx v2)))
+    | _ -> failwith "bad pair") (lst x) in
+  let rec go items acc = match items, acc with
+    | [], _ -> List.rev_map (fun (l, its) -> (l, List.rev its)) acc
+    | (l, it) :: tl, (l', its) :: rest when int_of_n l = int_of_n l' -> go tl ((l', it :: its) :: rest)
+    | (l, it) :: tl, _ -> go tl ((l, [it]) :: acc) in
+  go items []
+let sx_of_groups gs =
+  L (List.concat_map (fun (l, its) ->
+       List.map (fun (r, (v1, v2)) -> L [an l; an r; sx_of_vr v1; sx_of_vr v2]) its) gs)
 
 let enc_obs (b : n list outcome) (n : n outcome) : sx =
   match b, n with
@@ -131,6 +151,10 @@ let sub_encode (x : sx) : sx = match x with
     enc_obs (m_gsub12_encode c su) (m_gsub12_len c su)
   | L [A ("gsub21" | "gsub31"); c; q] -> let c = as_table (cov_of_sx c) and q = List.map ns_of_sx (lst q) in
     enc_obs (m_gsubseq_encode c q) (m_gsubseq_len c q)
+  | L [A "gsub41"; c; ss] -> let c = as_table (cov_of_sx c) and ss = sets_of_sx ss in
+    enc_obs (m_gsub41_encode c ss) (m_gsub41_len c ss)
+  | L [A "gpos21"; ps] -> let gs = groups_of_sx ps in
+    enc_obs (m_gpos21_encode gs) (m_gpos21_len gs)
   | L [A "gpos11"; c; v] -> let c = as_table (cov_of_sx c) and v = vr_of_sx v in
     enc_obs (m_gpos11_encode c v) (m_gpos11_len c v)
   | L [A "gpos12"; c; vs] -> let c = as_table (cov_of_sx c) and vs = List.map vr_of_sx (lst vs) in
@@ -180,8 +204,10 @@ let () = main_loop (fun c ->
     outc (fun (v, rest) -> L [A "ok"; sx_of_vr v; ai (List.length rest)]) (m_vr_read (sx_n fmt) (sx_bytes data))
   | [A "sub-enc"; st] -> sub_encode st
   | [A "sub-read"; tbl; tp; data; pos] ->
-    outc (fun st -> L [A "ok"; sx_of_subtable st])
-      (m_sub_read (atom tbl = "gpos") (sx_bytes data) (sx_n pos) (sx_n tp))
+    outc (fun st -> match st with
+        | S1 s1 -> L [A "ok"; sx_of_subtable s1]
+        | SGpos21 gs -> L [A "ok"; L [A "gpos21"; sx_of_groups gs]])
+      (m_sub_read2 (atom tbl = "gpos") (sx_bytes data) (sx_n pos) (sx_n tp))
   | [A "fl-enc"; fl] ->
     let fl = List.map (fun f -> match f with
       | L [t; ls] -> (sx_bytes t, ns_of_sx ls) | _ -> failwith "bad feature") (lst fl) in
